@@ -58,22 +58,29 @@ fn framing_defect(b: &[u8], pt: Option<u8>, min: usize) -> Option<&'static str> 
 /// A typed parser defined outside the crate on the public framing helper, the way
 /// `tests/custom_packet.rs` does it; its packet type is the one value the crate itself uses as a
 /// placeholder (255), its fixed part is 8 bytes.
-struct Custom<'a> {
+/// Three of them: (minimum 8, type 255, the crate's own placeholder value), (minimum 14 — not a
+/// whole number of words —, type 251) and (minimum 6, type 250, with a narrower MAX_COUNT).
+pub struct Custom<'a, const MIN: usize, const PT: u8, const MAXC: u8> {
     data: &'a [u8],
 }
-impl RtcpPacket for Custom<'_> {
-    const MIN_PACKET_LEN: usize = 8;
-    const PACKET_TYPE: u8 = 255;
+impl<const MIN: usize, const PT: u8, const MAXC: u8> RtcpPacket for Custom<'_, MIN, PT, MAXC> {
+    const MAX_COUNT: u8 = MAXC;
+    const MIN_PACKET_LEN: usize = MIN;
+    const PACKET_TYPE: u8 = PT;
 }
-impl<'a> RtcpPacketParser<'a> for Custom<'a> {
+impl<'a, const MIN: usize, const PT: u8, const MAXC: u8> RtcpPacketParser<'a> for Custom<'a, MIN, PT, MAXC> {
     fn parse(data: &'a [u8]) -> Result<Self, RtcpParseError> {
         rtcp_types::utils::parser::check_packet::<Self>(data)?;
         Ok(Custom { data })
     }
     fn header_data(&self) -> [u8; 4] {
+        // MIN may be below 4 in principle; the parsers used here have MIN >= 6
         self.data[..4].try_into().unwrap()
     }
 }
+pub type Custom8<'a> = Custom<'a, 8, 255, 0x1f>;
+pub type Custom14<'a> = Custom<'a, 14, 251, 0x1f>;
+pub type Custom6<'a> = Custom<'a, 6, 250, 0x0f>;
 
 struct Hdr {
     version: u8,
@@ -208,17 +215,24 @@ pub fn judge(b: &[u8]) -> Verdict {
         converted!(6, PayloadFeedback);
     }
     // a typed parser defined outside the crate on the public framing helper
-    match guarded(|| Custom::parse(b).ok().map(|p| hdr_of!(p))) {
-        Ok(Some(h)) => {
-            if let Some(d) = framing_defect(b, Some(255), 8) {
-                v.violation.get_or_insert((format!("Accepted:Custom:{d}"), format!("a parser built on check_packet (type 255, minimum 8) accepted {} bytes although: {d}", b.len())));
-            } else if let Some(d) = header_defect(b, &h, None) {
-                v.violation.get_or_insert((format!("Accessor:Custom:{d}"), format!("header accessor {d} of a parser built on check_packet disagrees with the wire bytes")));
+    macro_rules! custom {
+        ($ty:ty, $pt:expr, $min:expr) => {{
+            match guarded(|| <$ty>::parse(b).ok().map(|p| hdr_of!(p))) {
+                Ok(Some(h)) => {
+                    if let Some(d) = framing_defect(b, Some($pt), $min) {
+                        v.violation.get_or_insert((format!("Accepted:Custom:{d}"), format!("a parser built on check_packet (type {}, minimum {}) accepted {} bytes although: {d}", $pt, $min, b.len())));
+                    } else if let Some(d) = header_defect(b, &h, None) {
+                        v.violation.get_or_insert((format!("Accessor:Custom:{d}"), format!("header accessor {d} of a parser built on check_packet (type {}) disagrees with the wire bytes", $pt)));
+                    }
+                }
+                Ok(None) => {}
+                Err(_) => v.panics += 1,
             }
-        }
-        Ok(None) => {}
-        Err(_) => v.panics += 1,
+        }};
     }
+    custom!(Custom8, 255, 8);
+    custom!(Custom14, 251, 14);
+    custom!(Custom6, 250, 6);
 
     // Unknown: size, version and length-field conditions only
     match guarded(|| {
